@@ -390,29 +390,32 @@ def c05(rep, model):
         if not ps:
             Cc.unknown(inst, 'no path for opcode')
             continue
-        # group by non-debug guards
-        buckets = {}
+        # two paths whose purely non-debug guards do not contradict each other can both be taken from the
+        # same computation state (depending on debugger state only): their effects must then be identical
         bad = None
+        info = []
         for s in ps:
-            nd = tuple(sorted((t_show(t), pol) for t, pol in s.guards if not model.is_debug_term(t)))
             sig = model.effect_signature(s)
+            nd = set((t_show(t), pol) for t, pol in s.guards if not model.is_debug_term(t))
+            tainted = any(model.is_debug_term(t) for t, pol in s.guards)
             for ef in s.p.effects:
-                vals = [x for x in ef if isinstance(x, Val)]
-                for v in vals:
+                for v in [x for x in ef if isinstance(x, Val)]:
                     if model.is_debug_term(v.term):
                         bad = 'effect value %s depends on debugger state' % t_show(v.term)
                 if ef[0] == 'store' and model.is_debug_term(ef[2]):
                     bad = 'store index depends on debugger state'
-            for t, pol in s.guards:
-                if not model.is_debug_term(t):
+            info.append((s, sig, nd, tainted))
+        for i in range(len(info)):
+            for j in range(i + 1, len(info)):
+                s1, sig1, nd1, t1 = info[i]
+                s2, sig2, nd2, t2 = info[j]
+                if not (t1 or t2):
                     continue
-            buckets.setdefault(nd, []).append((s, sig))
-        for nd, lst in buckets.items():
-            first = lst[0][1]
-            for s, sig in lst[1:]:
-                if sig != first:
-                    dg = [(t_show(t), pol) for t, pol in s.guards if model.is_debug_term(t)]
-                    bad = 'effects differ under debugger-state guard %s: %s vs %s' % (dg, sig, first)
+                if any((t, not pol) in nd2 for t, pol in nd1):
+                    continue
+                if sig1 != sig2:
+                    dg = [(t_show(t), pol) for t, pol in s1.guards + s2.guards if model.is_debug_term(t)]
+                    bad = 'effects differ depending on debugger state %s: %s vs %s' % (dg, sig1, sig2)
         if bad:
             Cc.violation(inst, bad, _where(model, ps[0].fn, ps[0].fn['loc'][1:]))
         else:
